@@ -37,6 +37,23 @@ pub fn check(a: &Analysis, obs: &mut Obs) -> Vec<Violation> {
         return out; // C01's business
     }
     let shape = a.shape();
+    // "Stored" means the bytes: the position the tables give for a sample says where it is stored
+    // only if that sample's bytes are there. (A writer that computes the merge order for the
+    // tables but streams the payloads in another order keeps every offset comparison below
+    // happy.) C01's resolver decides that; any sample of either track that is not at its table
+    // position means the storage order is not the one the tables describe.
+    {
+        let mut scratch = Obs::default();
+        let c1 = super::c01::check(a, &mut scratch);
+        if let Some(x) = c1.iter().find(|x| x.sig.contains("sample-bytes") || x.sig.contains("sample-size") || x.sig.contains("sample-out-of-file") || x.sig.starts_with("cover")) {
+            out.push(v(
+                format!("stored-elsewhere|{}", x.sig),
+                format!("the media data does not hold the samples where the tables place them, so the tables' order is not the storage order: {}", x.detail),
+            ));
+            return out;
+        }
+        obs.count("histories_with_every_sample_at_its_table_position", 1);
+    }
     // clause 1: each track's samples are stored in sample order
     for (name, t) in [("video", vt), ("audio", at)] {
         for (i, w) in t.samples.windows(2).enumerate() {
